@@ -69,4 +69,35 @@ prefix of the data up to the highest offset ever read -/
 def RC.Good (rc : RC) : Prop :=
   rc.pos = rc.inner.pos ∧ rc.cache = rc.inner.data.take rc.cache.length ∧ rc.pos ≤ rc.cache.length ∧ rc.cache.length ≤ rc.inner.data.length
 
+def slice (l : List UInt8) (p n : Nat) : List UInt8 := (l.drop p).take n
+
+
+/-- the calls deku's `Reader` issues while decoding -/
+inductive Call where
+  | read (k : Nat)
+  | seekBack (j : Nat)
+
+/-- the abstract cursor the decoder model is written over: offset and highest offset read -/
+def specRun (data : List UInt8) : Nat → Nat → List Call → Option (List (List UInt8) × Nat × Nat)
+  | pos, hi, [] => some ([], pos, hi)
+  | pos, hi, .read k :: rest =>
+    if pos + k ≤ data.length then
+      (specRun data (pos + k) (max hi (pos + k)) rest).map (fun r => (slice data pos k :: r.1, r.2))
+    else none
+  | pos, hi, .seekBack j :: rest => if j ≤ pos then specRun data (pos - j) hi rest else none
+
+/-- the same calls on `ReaderCrc` over a scheduled reader -/
+def concRun : RC → List Call → Option (List (List UInt8) × RC)
+  | rc, [] => some ([], rc)
+  | rc, .read k :: rest =>
+    match readExact (rc.inner.sched.length + k + 1) rc k with
+    | .ok (bs, rc') => (concRun rc' rest).map (fun r => (bs :: r.1, r.2))
+    | _ => none
+  | rc, .seekBack j :: rest => if j ≤ rc.pos then concRun (rc.seekBack j) rest else none
+
+
+/-- the same reader standing `pre.length` bytes into a longer stream (a frame that is not at the start of its reader) -/
+def RC.shift (pre : List UInt8) (rc : RC) : RC :=
+  { rc with inner := { rc.inner with data := pre ++ rc.inner.data, pos := rc.inner.pos + pre.length } }
+
 end Adsb
